@@ -21,7 +21,6 @@ RULE = (
     "Distinct = distinct argument tuple."
 )
 ASSUMPTIONS = [
-    "free-width pack (size=None) of a signed value that does not fit the width the library derives is allowed to raise OverflowError",
     "netbios_decode is only judged on outputs of an encoder (odd-length / out-of-alphabet inputs are outside the statement)",
 ]
 REQUIRED_MONITORS = ["xor.spec", "netbios.roundtrip", "pack.roundtrip", "uri.classifier", "uri.generator", "staged.gate"]
@@ -151,12 +150,17 @@ def check_case(case, ctx):
 def _check_pack(case, ctx, utils):
     n, size, order, signed = case["n"], case["size"], case["order"], case["signed"]
     ctx.mon("pack.roundtrip")
-    width = size if size is not None else (n.bit_length() + 7) // 8
-    try:
-        want = n.to_bytes(width, order, signed=signed)
-        fits = True
-    except OverflowError:
-        want, fits = None, False
+    if size is None:
+        # free width: the library chooses the width, which must be able to represent the value (sign bit included);
+        # only a negative value without signed=True is unrepresentable
+        fits = signed or n >= 0
+        want = None
+    else:
+        try:
+            want = n.to_bytes(size, order, signed=signed)
+            fits = True
+        except OverflowError:
+            want, fits = None, False
     try:
         got = utils.pack(n, size, byteorder=order, signed=signed)
     except OverflowError:
@@ -170,9 +174,10 @@ def _check_pack(case, ctx, utils):
             return
         ctx.ok(fp=("pack", n, size, order, signed), case=case, classes=("pack:overflow",))
         return
-    if got is OverflowError or got != want:
-        ctx.violation("pack.spec", f"pack({n},{size},{order},signed={signed}) = {got!r} want {want!r}", case)
+    if got is OverflowError or (want is not None and got != want) or (want is None and int.from_bytes(got, order, signed=signed) != n):
+        ctx.violation("pack.spec", f"pack({n},{size},{order},signed={signed}) = {got!r} want {want!r} (a free-width packing must represent the value)", case)
         return
+    want = got if want is None else want
     back = utils.unpack(got, size, byteorder=order, signed=signed)
     if back != n:
         ctx.violation("pack.roundtrip", f"unpack(pack({n})) = {back} (size={size},{order},signed={signed})", case)
@@ -316,8 +321,7 @@ def _check_staged(case, ctx):
             return
     finally:
         pcap.BeaconConfig = orig
-    ascii_uri = None if uri is None else uri.encode("latin-1").decode("ascii", "ignore")
-    is_stager = uri is None or spec_x86(ascii_uri) or spec_x64(ascii_uri)
+    is_stager = uri is None or spec_x86(uri) or spec_x64(uri)  # uri: the request URI's bytes as characters, none dropped
     if not is_stager:
         if calls or res is not None:
             ctx.violation("staged.gate", f"known non-stager request {uri!r}: from_bytes calls={len(calls)} result={res!r}", case)
@@ -391,7 +395,7 @@ def run_shard(shard, ctx):
             bits = 8 * (size if size is not None else rng.randrange(0, 12))
             lo, hi = (-(1 << (bits - 1)), (1 << (bits - 1)) - 1) if signed and bits else (0, (1 << bits) - 1)
             if size is None and signed:
-                lo, hi = -(1 << max(bits - 2, 0)), (1 << max(bits - 2, 0))
+                lo, hi = -(1 << max(bits - 1, 0)), (1 << max(bits - 1, 0))  # around the sign-bit boundary of each width
             r = rng.random()
             if r < 0.4:
                 n = rng.choice([lo, lo + 1, hi, hi - 1, 0, 1, -1 if signed else 0, lo - 1, hi + 1])
@@ -447,7 +451,7 @@ def run_shard(shard, ctx):
                     check_case({"op": "gen", "length": length, "x64": x64, "seed": rng.getrandbits(32)}, ctx)
     elif kind == "staged":
         alnum = string.ascii_letters + string.digits
-        fixed = [None, "/", "", "/index.html", "/a/b/c/d", "/abcd\n"]
+        fixed = [None, "/", "", "/index.html", "/a/b/c/d", "/abcd\n", "/\xffTOKn", "/TOKn\x80", "/\xe9oOo0", "/oOo0\x80"]
         for i in range(shard["n"]):
             r = rng.random()
             if i < len(fixed):
@@ -460,6 +464,9 @@ def run_shard(shard, ctx):
                 uri = utils.random_stager_uri(length=rng.randrange(3, 30))
             else:
                 uri = "/" + "".join(rng.choice(alnum + "/.") for _ in range(rng.randrange(0, 12)))
+            if rng.random() < 0.2 and uri:
+                pos = rng.randrange(0, len(uri) + 1)
+                uri = uri[:pos] + rng.choice(["\x80", "\xff", "\xe9"]) + uri[pos:]  # a byte >= 0x80 somewhere in a (stager-looking) URI
             for body in ("payload", "junk"):
                 check_case({"op": "staged", "uri": uri, "body": body, "junk": _rbytes(rng, rng.randrange(0, 64)),
                             "method": rng.choice([b"GET", b"GET", b"POST", b"HEAD", b"get", b"PUT"])}, ctx)
